@@ -266,7 +266,32 @@ enum Cmd {
 	Quit,
 }
 
-fn worker_main(id: usize, built: Arc<Vec<Option<Built>>>, rx: Receiver<Cmd>, tx: Sender<(String, bool)>) {
+/// runs its closure from a destructor
+struct OnDrop<F: FnMut()>(F);
+impl<F: FnMut()> Drop for OnDrop<F> {
+	fn drop(&mut self) {
+		(self.0)()
+	}
+}
+struct OuterPanic;
+
+/// `unw`: the whole command loop runs inside a destructor while the thread is unwinding from an unrelated
+/// panic (std::thread::panicking() is true throughout); every panic of an operation is caught inside it
+fn worker_main(id: usize, built: Arc<Vec<Option<Built>>>, rx: Receiver<Cmd>, tx: Sender<(String, bool)>, unw: bool) {
+	if unw {
+		let _ = catch_unwind(AssertUnwindSafe(|| {
+			let _d = OnDrop(|| {
+				assert!(std::thread::panicking());
+				worker_loop(id, built.clone(), &rx, &tx)
+			});
+			std::panic::resume_unwind(Box::new(OuterPanic));
+		}));
+	} else {
+		worker_loop(id, built, &rx, &tx)
+	}
+}
+
+fn worker_loop(id: usize, built: Arc<Vec<Option<Built>>>, rx: &Receiver<Cmd>, tx: &Sender<(String, bool)>) {
 	TID.with(|t| t.set(id));
 	let mut w = Worker { extra_keys: vec![], key: None, guard: None, built };
 	while let Ok(cmd) = rx.recv() {
@@ -307,7 +332,8 @@ fn run_seq(sc: &Scen, world: &scen::World, out: &mut impl Write) {
 		let (ctx, crx) = channel::<Cmd>();
 		let (rtx, rrx) = channel::<(String, bool)>();
 		let b = built.clone();
-		handles.push(std::thread::spawn(move || worker_main(t, b, crx, rtx)));
+		let unw = sc.unw.contains(&t);
+		handles.push(std::thread::spawn(move || worker_main(t, b, crx, rtx, unw)));
 		chans.insert(t, (ctx, rrx));
 	}
 	for (t, op) in &sc.hist {
